@@ -502,6 +502,9 @@ package nfa
 //@   ensures result != nil ==> (forall j :: 0 <= j && j < len(partClass(re).Rune) ==> partClass(re).Rune[j] <= 127)
 //@   ensures result != nil ==> partTable(result.membership, partClass(re))
 //@   ensures result != nil ==> result.minMatch == ite(re.Op == 15 || re.Op == 4, 1, ite(re.Op == 17, re.Min, 0)) && result.maxMatch == ite(re.Op == 4 || re.Op == 16, 1, ite(re.Op == 17, re.Max, 0))
+// maxMatch == 0 means "no upper bound" to the matchers: a counted repetition with maximum 0 (cc{0}) must be declined
+// (this clause comes from the pattern's meaning; the one above was read off the code and had encoded the defect)
+//@   ensures result != nil && re.Op == 17 ==> re.Max != 0
 //@   loop 1: invariant 0 <= i && i % 2 == 0 && i <= len(runes) + 1 && sameslice(runes, charClass.Rune) && charClass != nil && charClass.Op == 4 && len(runes) % 2 == 0
 //@   loop 1: invariant forall j :: 0 <= j && j < i && j < len(runes) ==> runes[j] <= 127
 //@   loop 1: invariant forall b :: 0 <= b && b <= 255 ==> (membership[b] <==> (exists j :: 0 <= j && j + 1 < len(runes) && j < i && j % 2 == 0 && runes[j] <= b && b <= runes[j+1]))
